@@ -33,52 +33,177 @@ theorem resolve_none_iff {α} (c e f d : Option α) : resolve c e f d = none ↔
 
 /-! ### validity layer -/
 
-/-- an invalid value of the winning provider is rejected with that provider named - whatever the lower providers and
-    the default would have offered, it is never skipped in their favour -/
+/-- value a provider's raw input validates to, if it does -/
+def valid? (fld : Field) (r : Option Raw) : Option Val :=
+  r.bind (fun r => match provided fld r with | .ok v => some v | .error _ => none)
+
+/-- an invalid value of the winning provider is rejected - whatever the lower providers and the default would have
+    offered, it is never skipped in their favour. The message names the provider `blame` finds: the one whose value
+    equals the reported input, else the command line -/
+theorem invalid_rejected_blame (fld : Field) (c e f : Option Raw) (d : Option Val) (src : Source) (r : Raw) (m : Msg)
+    (hw : argValue c (offered fld (extraDefault e f)) = some (src, r)) (hbad : provided fld r = .error m) :
+    effective fld c e f d = .rejected (blame (reported fld.kind r) (extraDefault e f)) m := by
+  simp only [effective, hw, hbad]
+
+/-- a value that is validated as a whole is reported as a whole -/
+theorem reported_whole (k : Kind) (r : Raw) (h : ∀ xs, r ≠ .list xs) : reported k r = r := by
+  cases r <;> first | (cases k <;> rfl) | exact absurd rfl (h _)
+
+/-- ... and when the command line did not hand over the very same text as the environment / the file, the provider
+    named is the winner (`hdist`); the values the environment and the file provide for the options of the shipped
+    commands are never lists validated element by element (`hwhole`) -/
 theorem invalid_names_source (fld : Field) (c e f : Option Raw) (d : Option Val) (src : Source) (r : Raw) (m : Msg)
-    (hw : resolve c e f none = some (src, r)) (hbad : provided fld r = .error m) :
+    (hpos : fld.positional = false)
+    (hw : resolve c e f none = some (src, r)) (hbad : provided fld r = .error m)
+    (hdist : src = .cli → ∀ s x, extraDefault e f = some (s, x) → x ≠ reported fld.kind r)
+    (hwhole : src ≠ .cli → reported fld.kind r = r) :
     effective fld c e f d = .rejected src m := by
   cases c <;> cases e <;> cases f <;>
-    simp_all [resolve, effective, argValue, extraDefault] <;>
-    (obtain ⟨rfl, rfl⟩ := hw; simp [hbad])
+    simp_all [resolve, effective, argValue, extraDefault, offered, blame] <;>
+    (obtain ⟨rfl, rfl⟩ := hw; simp_all)
+
+/-- the provider named in a rejection gave exactly the reported input: either it is the command line and its value
+    was refused, or it is the environment / the file and holds the very text that was refused -/
+theorem blamed_holds_input (fld : Field) (c e f : Option Raw) (d : Option Val) (s : Source) (m : Msg)
+    (h : effective fld c e f d = .rejected s m) :
+    ∃ src r, argValue c (offered fld (extraDefault e f)) = some (src, r) ∧ provided fld r = .error m ∧
+      ((s = .cli ∧ ∀ x, extraDefault e f = some (src, x) → src ≠ .cli → x ≠ reported fld.kind r) ∨
+       extraDefault e f = some (s, reported fld.kind r)) := by
+  simp only [effective] at h
+  split at h
+  · rename_i src r hw
+    split at h
+    · cases h
+    · rename_i m' hbad
+      injection h with hs hm
+      subst hm
+      refine ⟨src, r, hw, hbad, ?_⟩
+      unfold blame at hs
+      split at hs
+      · rename_i s' r' hx
+        split at hs
+        · rename_i heq
+          right
+          have : r' = reported fld.kind r := by simpa using heq
+          rw [hx, this, hs]
+        · rename_i hne
+          left
+          refine ⟨hs.symm, ?_⟩
+          intro x hx2 _
+          rw [hx] at hx2
+          injection hx2 with hx2
+          injection hx2 with _ hx3
+          subst hx3
+          simpa using hne
+      · rename_i hx
+        left
+        refine ⟨hs.symm, ?_⟩
+        intro x hx2
+        rw [hx] at hx2
+        cases hx2
+  · split at h <;> cases h
+
+/-- the same invalid text on the command line and in the environment: the message names the environment, which does
+    hold that text (`blamed_holds_input`), although the command line was the winner -/
+example : effective { kind := .autoInt } (some (.atom (.str ['z']))) (some (.atom (.str ['z']))) none (some (.int 4))
+    = .rejected .env .notInt := by decide +kernel
 
 /-- ... and a valid one is the effective value, attributed to that provider -/
 theorem valid_winner_effective (fld : Field) (c e f : Option Raw) (d : Option Val) (src : Source) (r : Raw) (v : Val)
+    (hpos : fld.positional = false)
     (hw : resolve c e f none = some (src, r)) (hok : provided fld r = .ok v) :
     effective fld c e f d = .ok src v := by
   cases c <;> cases e <;> cases f <;>
-    simp_all [resolve, effective, argValue, extraDefault] <;>
+    simp_all [resolve, effective, argValue, extraDefault, offered] <;>
     (obtain ⟨rfl, rfl⟩ := hw; simp [hok])
 
 /-- the default is used exactly when all three providers are silent; without a default that is "missing" -/
 theorem default_only_when_silent (fld : Field) (d : Option Val) :
     effective fld none none none d = (match d with | some v => .ok .dflt v | none => .missing) := by
-  cases d <;> rfl
+  cases d <;> simp [effective, argValue, extraDefault, offered]
 
-/-- whatever is accepted is the validated value of the highest-priority provider that spoke, or the default when none did -/
+/-- whatever is accepted is the validated value of the highest-priority provider that spoke, or the default when none
+    did (for a positional argument: when the command line did not) -/
 theorem effective_ok_sound (fld : Field) (c e f : Option Raw) (d : Option Val) (src : Source) (v : Val)
+    (hpos : fld.positional = false)
     (h : effective fld c e f d = .ok src v) :
     (src = .dflt ∧ c = none ∧ e = none ∧ f = none ∧ d = some v) ∨
     (∃ r, resolve c e f none = some (src, r) ∧ provided fld r = .ok v) := by
   cases c <;> cases e <;> cases f <;> cases d <;>
-    simp_all [resolve, effective, argValue, extraDefault] <;>
+    simp_all [resolve, effective, argValue, extraDefault, offered] <;>
     (split at h <;> simp_all)
 
-theorem missing_iff (fld : Field) (c e f : Option Raw) (d : Option Val) :
+theorem missing_iff (fld : Field) (c e f : Option Raw) (d : Option Val) (hpos : fld.positional = false) :
     effective fld c e f d = .missing ↔ c = none ∧ e = none ∧ f = none ∧ d = none := by
-  cases c <;> cases e <;> cases f <;> cases d <;> simp [effective, argValue, extraDefault] <;> split <;> simp
+  cases c <;> cases e <;> cases f <;> cases d <;> simp [effective, argValue, extraDefault, offered, hpos] <;> split <;> simp
 
-/-- a value on the command line makes environment, file and default irrelevant (they are not even validated) -/
+/-- a positional argument is taken from the command line only: the environment and the file are not even offered to
+    argparse, and leaving it out is "missing" whatever they hold -/
+theorem positional_cli_only (fld : Field) (c e f : Option Raw) (d : Option Val) (hpos : fld.positional = true) :
+    (c = none → effective fld c e f d = (match d with | some v => .ok .dflt v | none => .missing)) ∧
+    (∀ r v, c = some r → provided fld r = .ok v → effective fld c e f d = .ok .cli v) := by
+  constructor
+  · intro hc; subst hc
+    cases d <;> simp [effective, argValue, offered, hpos]
+  · intro r v hc hok; subst hc
+    simp [effective, argValue, hok]
+
+/-- a valid value on the command line makes environment, file and default irrelevant (they are not even validated);
+    an invalid one is rejected whatever they hold -/
 theorem cli_overrides (fld : Field) (r : Raw) (e f : Option Raw) (d : Option Val) :
-    effective fld (some r) e f d = effective fld (some r) none none none := rfl
+    (∃ v, provided fld r = .ok v ∧ effective fld (some r) e f d = .ok .cli v) ∨
+    (∃ m s, provided fld r = .error m ∧ effective fld (some r) e f d = .rejected s m) := by
+  cases h : provided fld r with
+  | ok v => left; exact ⟨v, rfl, by simp [effective, argValue, h]⟩
+  | error m => right; exact ⟨m, blame (reported fld.kind r) (extraDefault e f), rfl, by simp [effective, argValue, h]⟩
 
 /-- an environment value makes file and default irrelevant -/
-theorem env_overrides (fld : Field) (r : Raw) (f : Option Raw) (d : Option Val) :
-    effective fld none (some r) f d = effective fld none (some r) none none := rfl
+theorem env_overrides (fld : Field) (r : Raw) (f : Option Raw) (d : Option Val) (hpos : fld.positional = false) :
+    effective fld none (some r) f d = effective fld none (some r) none none := by
+  simp [effective, argValue, extraDefault, offered, hpos, blame]
 
 /-- a file value makes the default irrelevant -/
-theorem file_overrides (fld : Field) (r : Raw) (d : Option Val) :
-    effective fld none none (some r) d = effective fld none none (some r) none := rfl
+theorem file_overrides (fld : Field) (r : Raw) (d : Option Val) (hpos : fld.positional = false) :
+    effective fld none none (some r) d = effective fld none none (some r) none := by
+  simp [effective, argValue, extraDefault, offered, hpos]
+
+/-- only the winning provider's value is validated: with a valid winner, whatever the providers of lower priority hold
+    - valid, invalid, nothing - the outcome is the same. (Reading of "an invalid value is rejected ... instead of being
+    ignored": the property speaks about the value precedence selects; a value that precedence does not select is not
+    examined - `GALLIA_DEPTH=zz gallia scan uds sessions --depth 5` runs with depth 5.) -/
+theorem losing_invalid_ignored (fld : Field) (r : Raw) (v : Val) (hok : provided fld r = .ok v) :
+    (∀ e f d, effective fld (some r) e f d = .ok .cli v) ∧
+    (fld.positional = false → ∀ f d, effective fld none (some r) f d = .ok .env v) ∧
+    (fld.positional = false → ∀ d, effective fld none none (some r) d = .ok .file v) := by
+  refine ⟨?_, ?_, ?_⟩
+  · intro e f d; simp [effective, argValue, hok]
+  · intro hpos f d; simp [effective, argValue, extraDefault, offered, hpos, hok]
+  · intro hpos d; simp [effective, argValue, extraDefault, offered, hpos, hok]
+
+/-- `precedence` for every field kind, on the raw inputs: when the winner's value is valid, the effective value is
+    the one `resolve` picks among the *validated* values of the providers - CLI > env > file > default -/
+theorem precedence_all_kinds (fld : Field) (c e f : Option Raw) (d : Option Val) (hpos : fld.positional = false)
+    (hwin : ∀ src r, resolve c e f none = some (src, r) → ∃ v, provided fld r = .ok v) :
+    effective fld c e f d =
+      (match resolve (valid? fld c) (valid? fld e) (valid? fld f) d with
+       | some (s, v) => .ok s v
+       | none => .missing) := by
+  cases c with
+  | some r =>
+    obtain ⟨v, hv⟩ := hwin .cli r (by simp [resolve, argValue])
+    simp [effective, argValue, resolve, valid?, hv]
+  | none =>
+    cases e with
+    | some r =>
+      obtain ⟨v, hv⟩ := hwin .env r (by simp [resolve, argValue, extraDefault])
+      simp [effective, argValue, extraDefault, offered, hpos, resolve, valid?, hv]
+    | none =>
+      cases f with
+      | some r =>
+        obtain ⟨v, hv⟩ := hwin .file r (by simp [resolve, argValue, extraDefault])
+        simp [effective, argValue, extraDefault, offered, hpos, resolve, valid?, hv]
+      | none =>
+        cases d <;> simp [effective, argValue, extraDefault, offered, resolve, valid?]
 
 /-- the hypotheses of `invalid_names_source` are satisfiable: `GALLIA_DEPTH=0xzz` with `depth = 5` in the file and a
     default of 4 is refused, naming the environment -/
@@ -201,12 +326,13 @@ theorem loadKey_showInt (k : Int) : loadKey (showInt k) = some k := by
     validators can produce (AutoInt, plain int, enum by value, bool, str / Path / URI text, HexBytes, Ranges, Ranges2D,
     list[AutoInt], `None` of optional fields) -/
 theorem load_dump (fld : Field) (v : Val) (h : WellTyped fld v) : load fld (dump v) = .ok v := by
-  obtain ⟨kind, opt, cst⟩ := fld
+  obtain ⟨kind, opt, cst, pos⟩ := fld
   cases v with
   | none => simp_all [WellTyped, dump, load]
   | int i =>
     simp only [WellTyped] at h
-    rcases h with rfl | rfl | ⟨ms, rfl, hm⟩
+    rcases h with rfl | rfl | rfl | ⟨ms, rfl, hm⟩
+    · simp [dump, load, parse]
     · simp [dump, load, parse]
     · simp [dump, load, parse]
     · simp [dump, load, parse, enumLookup, hm]
@@ -227,7 +353,7 @@ theorem load_dump (fld : Field) (v : Val) (h : WellTyped fld v) : load fld (dump
     simp [dump, load, parse, unhexChars_hexOf]
   | ints l =>
     simp only [WellTyped] at h
-    rcases h with rfl | rfl
+    rcases h with rfl | rfl | ⟨ms, rfl, hm⟩
     · cases l with
       | nil => simp [dump, load, parse, allSome, intercalate, unravel]
       | cons a l =>
@@ -244,6 +370,17 @@ theorem load_dump (fld : Field) (v : Val) (h : WellTyped fld v) : load fld (dump
       split
       · rename_i is his; rw [this] at his; cases his; rfl
       · rename_i his; rw [this] at his; cases his
+    · have := parseEach_enums ms l hm
+      simp only [dump, load, parse]
+      rw [this]
+  | tuples l =>
+    simp only [WellTyped] at h
+    obtain ⟨n, rfl, hl⟩ := h
+    simp [dump, load, hl]
+  | dict t =>
+    simp only [WellTyped] at h
+    obtain ⟨rfl, ht⟩ := h
+    simp [dump, load, ht]
   | map m =>
     simp only [WellTyped] at h
     subst h
